@@ -52,6 +52,15 @@ Theorem C05_exit_zero_needs_front : forall t ok,
 Proof. exact exit_zero_needs_front. Qed.
 Print Assumptions C05_exit_zero_needs_front.
 
+(* the hypotheses of the three theorems above are met by concrete outcome functions: a parser failure is rejected by every
+   tool, and with every phase succeeding the conclusions' premises hold (something is executed / written, exit status 0) *)
+Example C05_front_nonvacuous :
+  (forall t, run_tool t (fun ph => negb (phase_eqb ph PParse)) =
+             {| o_exit_nonzero := true; o_artifact := false; o_executed := false; o_diag := true |}) /\
+  o_executed (run_tool VirtRun (fun _ => true)) = true /\ o_artifact (run_tool VirtEmit (fun _ => true)) = true /\
+  o_artifact (run_tool Nanoc (fun _ => true)) = true /\ o_exit_nonzero (run_tool Nanoc (fun _ => true)) = false.
+Proof. split; [intros t; destruct t; vm_compute; reflexivity|]. repeat split; vm_compute; reflexivity. Qed.
+
 (* type checker: every error diagnostic fails the compilation in its block, returns a failing value to its caller, or is
    a triaged site (finding with a program, or justified) *)
 Theorem C05_all_error_sites_flagged : forallb site_ok diag_sites = true.
